@@ -30,7 +30,7 @@ static RefOp ref_of(const Op &o) {
         case W_RAW: r.pieces.push_back(o.b); break;      // possibly empty: a zero-length piece fits whenever nothing failed before
         case W_STRING_NULL: case W_RAW_NULL: r.null_error = true; break;
         case W_TO_WRITER:        // see WSession: only variant 1 stands on a container ({"b":1}); 4 = NULL parser (API error class); others append nothing and fail without latching
-            if (o.a % 5 == 1) r.pieces.push_back(Bytes{0x40, 0x14, 0x01, 0x62, 0x10, 0x01, 0x41});
+            if (o.a % 5 == 1) r.pieces.push_back(aux_container((int)(o.a / 5)));
             else if (o.a % 5 == 4) r.null_error = true;
             else r.refused = true;
             break;
@@ -114,7 +114,7 @@ Plan capacity_generate(uint64_t base, const std::string &prop, uint64_t index, i
                 case 10: p.ops.push_back(mk(W_STRING_LEN, 0, payload(ro, tier))); break;
                 case 11: p.ops.push_back(mk(W_BYTES, 0, payload(ro, tier))); break;
                 case 12: p.ops.push_back(mk(W_RAW, 0, payload(ro, tier))); break;
-                case 13: p.ops.push_back(mk(W_TO_WRITER, (int64_t)ro.below(prop == "C09" ? 5 : 4))); break;
+                case 13: p.ops.push_back(mk(W_TO_WRITER, (int64_t)ro.below(prop == "C09" ? 5 : 4) + 5 * (int64_t)ro.below(AUX_DOCS))); break;
                 default: p.ops.push_back(mk(ro.chance(1, 2) ? W_COUNTER : W_VERIFY)); break;
             }
         }
@@ -127,7 +127,7 @@ Plan capacity_generate(uint64_t base, const std::string &prop, uint64_t index, i
         int n = 1 + (int)ro.below(8);
         for (int i = 0; i < n; i++) {
             switch (ro.below(11)) {
-                case 9: case 10: p.ops2.push_back(mk(W_TO_WRITER, (int64_t)ro.below(5))); break;
+                case 9: case 10: p.ops2.push_back(mk(W_TO_WRITER, (int64_t)ro.below(5) + 5 * (int64_t)ro.below(AUX_DOCS))); break;
                 case 0: p.ops2.push_back(mk(W_BOOL, 1)); break; case 1: p.ops2.push_back(mk(W_INT, interesting_int(ro))); break;
                 case 2: p.ops2.push_back(mk(W_OBJ_END)); break; case 3: p.ops2.push_back(mk(W_RAW, 0, Bytes())); break;
                 case 4: p.ops2.push_back(mk(W_STRING_LEN, 0, payload(ro, 0))); break; case 5: p.ops2.push_back(mk(W_BYTES, 0, Bytes{1})); break;
